@@ -286,3 +286,21 @@ def assign_parts(n):
     if n.get("k") == "bin":
         return n["lhs"], n["op"], n["rhs"]
     return n["args"][0], n["op"], n["args"][1]
+
+
+def strip_views(n):
+    """look through casts, std::move-like wrappers, copy constructions and string/string_view conversions:
+    the expression whose characters are being looked at"""
+    while True:
+        n = strip_casts(strip_wrappers(n)) if n is not None else None
+        if n is None:
+            return None
+        k = n.get("k")
+        args = [a for a in n.get("args", []) if not a.get("def")]
+        if k == "ctor" and n.get("cls") in ("std::basic_string_view", "std::basic_string") and len(args) == 1:
+            n = args[0]
+            continue
+        if k == "mcall" and "::operator std::basic_string_view" in (n.get("callee") or ""):
+            n = n.get("obj")
+            continue
+        return n
